@@ -27,9 +27,10 @@ class Module:
         except SyntaxError as e:  # pragma: no cover
             raise AnalysisError(f"cannot parse {relpath}: {e}") from e
         # private helpers that no property names as an anchor are transparent: inline them into their callers
-        from .inline import expand_table_lookups, inline_helpers, normalise_loops, strip_logging, unroll_table_searches
+        from .inline import expand_table_lookups, inline_helpers, normalise_loops, normalise_match, strip_logging, unroll_table_searches
 
         self.stripped_log_statements = strip_logging(self.tree)
+        self.normalised_matches = normalise_match(self.tree)
         self.expanded_lookups = expand_table_lookups(self.tree)
         self.inlined_calls = inline_helpers(self.tree)
         self.normalised_loops = normalise_loops(self.tree) + unroll_table_searches(self.tree)
